@@ -118,7 +118,7 @@ theorem find_none {c : IdCtx} {m name : Bytes}
 theorem storeIdWith_ok_iff {c : IdCtx} (hwf : c.WF) (ab : Bool) (bases : List Ident) (pm : PrefixMap) (hints : Nat) (s : Bytes) (i : Ident) :
     storeIdWith ab c bases pm hints s = .ok i ↔
       (checkHints hints "ident").isSome = true ∧ (splitPrefix s).2 ≠ [] ∧ resolve pm (splitPrefix s).1 = some i.mod ∧
-      i.name = (splitPrefix s).2 ∧ (∃ df ∈ c.defs, df.id = i) ∧
+      i.name = (splitPrefix s).2 ∧ (∃ df ∈ c.defs, df.id = i) ∧ i ∉ c.disabled ∧
       (if ab = true then ∀ b ∈ bases, Derived c b i else ∃ b ∈ bases, Derived c b i) := by
   unfold storeIdWith
   cases hh : checkHints hints "ident" with
@@ -156,31 +156,42 @@ theorem storeIdWith_ok_iff {c : IdCtx} (hwf : c.WF) (ab : Bool) (bases : List Id
         | some df =>
           obtain ⟨hdm, hid⟩ := find_id hf
           simp only
-          by_cases hcb : checkBase ab c bases df.id = true
-          · rw [if_pos hcb]
-            constructor
-            · intro h
-              injection h with h
-              subst h
-              rw [hid]
-              refine ⟨hne, rfl, rfl, ⟨df, hdm, hid⟩, ?_⟩
-              rw [← hid]; exact (checkBase_iff hwf ab bases df.id).mp hcb
-            · rintro ⟨_, hm, hnm, _, _⟩
-              rw [hid]; cases i; simp only at hm hnm
-              injection hm with hm
-              rw [hm, hnm]
-          · rw [if_neg hcb]
+          have hidi : ∀ {hm : some m = some i.mod} {hnm : i.name = name}, df.id = i := by
+            intro hm hnm
+            rw [hid]; cases i; simp only at hm hnm
+            injection hm with hm
+            rw [hm, hnm]
+          by_cases hdis : c.disabled.contains df.id = true
+          · rw [if_pos hdis]
             constructor
             · intro h; cases h
-            · rintro ⟨_, hm, hnm, _, hder⟩
+            · rintro ⟨_, hm, hnm, _, hnd, _⟩
               exfalso
-              apply hcb
-              rw [checkBase_iff hwf]
-              have : df.id = i := by
-                rw [hid]; cases i; simp only at hm hnm
-                injection hm with hm
-                rw [hm, hnm]
-              rw [this]; exact hder
+              apply hnd
+              rw [← @hidi hm hnm]
+              exact List.contains_iff_mem.mp hdis
+          · rw [if_neg hdis]
+            have hnd : df.id ∉ c.disabled := fun h => hdis (List.contains_iff_mem.mpr h)
+            by_cases hcb : checkBase ab c bases df.id = true
+            · rw [if_pos hcb]
+              constructor
+              · intro h
+                injection h with h
+                subst h
+                rw [hid]
+                refine ⟨hne, rfl, rfl, ⟨df, hdm, hid⟩, ?_, ?_⟩
+                · rw [← hid]; exact hnd
+                · rw [← hid]; exact (checkBase_iff hwf ab bases df.id).mp hcb
+              · rintro ⟨_, hm, hnm, _, _, _⟩
+                rw [@hidi hm hnm]
+            · rw [if_neg hcb]
+              constructor
+              · intro h; cases h
+              · rintro ⟨_, hm, hnm, _, _, hder⟩
+                exfalso
+                apply hcb
+                rw [checkBase_iff hwf, @hidi hm hnm]
+                exact hder
 
 /-! ### canonical form -/
 
